@@ -248,6 +248,34 @@ Proof.
       * eexists. split; [rewrite r_range_spec_alts; apply (run_range_full R_range_spec spec_tail rest Hst)|]. reflexivity.
 Qed.
 
+(* the same without the range premise: the converter refuses exactly the out-of-range bounds *)
+Definition conv_range (r : range) : outcome range := if range_ok r then Ok r else Err.
+
+Ltac conv_bounds :=
+  unfold parse_range_spec, rtree, opt_bound, parse_bound, conv_range;
+  cbn [range_ok optz_ok optk t_kids unwrap_first bind t_rule nth_error t_text omap];
+  rewrite ?parse_isize_print_gen;
+  repeat match goal with |- context [in_isize ?z] => destruct (in_isize z) end; reflexivity.
+
+Theorem range_spec_reads r rest : op_stops rest ->
+  exists k, run r_range_spec false (print_range r ++ rest) = Some (print_range r, [k], rest)
+            /\ parse_range_spec k = conv_range r.
+Proof.
+  intros Hst. destruct r as [i | a b inc].
+  - eexists. split; [apply (run_range_index i rest Hst)|]. conv_bounds.
+  - destruct a as [a|]; destruct inc; cbn [print_range print_optz dots]; rewrite <- ?app_assoc; cbn [app].
+    + eexists. split; [rewrite r_range_spec_alts; apply (run_range_a_incl R_range_spec spec_tail a b rest Hst)|].
+      destruct b as [b|]; conv_bounds.
+    + eexists. split; [rewrite r_range_spec_alts; apply (run_range_a_excl R_range_spec spec_tail a b rest Hst)|].
+      destruct b as [b|]; conv_bounds.
+    + destruct b as [b|]; cbn [print_optz app].
+      * eexists. split; [rewrite r_range_spec_alts; apply (run_range_to_incl R_range_spec spec_tail b rest Hst)|]. conv_bounds.
+      * eexists. split; [rewrite r_range_spec_alts; apply (run_range_full_incl R_range_spec spec_tail rest Hst)|]. reflexivity.
+    + destruct b as [b|]; cbn [print_optz app].
+      * eexists. split; [rewrite r_range_spec_alts; apply (run_range_to R_range_spec spec_tail b rest Hst)|]. conv_bounds.
+      * eexists. split; [rewrite r_range_spec_alts; apply (run_range_full R_range_spec spec_tail rest Hst)|]. reflexivity.
+Qed.
+
 (* ---- the shorthand spellings {N} and {A..B} at operation level -------------------------- *)
 Lemma shorthand_range_fails_on_index i rest : op_stops rest ->
   run r_shorthand_range false (print_Z i ++ rest) = None.
